@@ -221,7 +221,9 @@ func checkSwagger(a *App, doc obj, s *sink, t *tally) (dev swaggerDeviations, re
 		for _, p := range e.Header {
 			t.params++
 			p := p
-			i := find(func(po obj) bool { return asStr(po["in"]) == "header" && asStr(po["name"]) == p.Name && po["schema"] == nil })
+			i := find(func(po obj) bool {
+				return asStr(po["in"]) == "header" && asStr(po["name"]) == p.Name && po["schema"] == nil
+			})
 			if i < 0 && !p.NameAttr {
 				i = find(func(po obj) bool {
 					return asStr(po["in"]) == "header" && asStr(po["name"]) == "" && po["schema"] == nil && swaggerKindOK(po, p.Prim)
@@ -253,6 +255,9 @@ func checkSwagger(a *App, doc obj, s *sink, t *tally) (dev swaggerDeviations, re
 					s.add(sigSwBodyAsHeader, "%s: body parameter %s <: %s [~body] is exported as {in: header, type: object, format: %s, schema: {$ref}} (setEndpointHeaderParams looks for attributes named \"header\"/\"body\"; ~body is a pattern, so the default branch makes a header parameter)", where, b.Name, b.Ref, b.Ref)
 					name := asStr(asObj(params[i])["name"])
 					if name == "" {
+						// written without name="…": the odd header parameter is nameless as well, and
+						// the importer turns that into Sysl text that does not compile
+						dev.nameless = true
 						name = b.Name
 					}
 					rparams[i] = obj{"in": "body", "name": name, "required": !b.Opt, "schema": obj{"$ref": swRef + b.Ref}}
@@ -445,7 +450,9 @@ func msgShape(m string) string {
 			w = "P"
 		case strings.ContainsAny(w, `"'`):
 			w = "Q"
-		case len(w) > 0 && w[0] >= 'A' && w[0] <= 'Z' && !strings.HasSuffix(w, ":") && w != "MUST" && w != "GET" && w != "POST" && w != "PUT" && w != "DELETE" && w != "PATCH":
+		case w == "GET:" || w == "POST:" || w == "PUT:" || w == "DELETE:" || w == "PATCH:":
+			w = "M:"
+		case len(w) > 0 && w[0] >= 'A' && w[0] <= 'Z' && !strings.HasSuffix(w, ":") && w != "MUST":
 			w = "X"
 		}
 		if len(out) > 0 && out[len(out)-1] == w && (w == "P" || w == "Q" || w == "X") {
